@@ -40,7 +40,9 @@ LEVEL_TEXT = (
     "Lean theorems for ALL label lists (cycles with any matching/marked/paused/DELETED inputs and any observation of the task, "
     "daemon-killer stages, the instance ending at any moment, any time steps, any backoff/timeout): at_most_one + "
     "spawn_only_when_none, started_on_match, self_exit_is_remembered + no_restart_after_self_exit, staged + staged_monotone, "
-    "stop_reasons. 'Stopping never stalls' is the theorem `progress` about a micro-step model of _timer for the tree as it is "
+    "stop_reasons; paused_daemon_cancelled_in_time (+ next_round_within_period, sweep_is_unconditional): while paused, a running "
+    "daemon of a known memory is cancelled within backoff + one killer period, whoever set its flag (the killer's unconditional "
+    "re-sweep is tied to the AST and to every observed round). 'Stopping never stalls' is the theorem `progress` about a micro-step model of _timer for the tree as it is "
     "(after-run idle loop guarded by the stopper, tied to the AST; incl. the non-suspending run of a series that failed for good); "
     "`idle_only_spins(+_witness)` is kept as the historical negation for the code before 6ccf081 (F1, fixed; corpus regression). "
     "'Never crashes': `killer_sweep_visits_all` for the daemon killer's snapshot iteration (tied to the AST; F11 fixed by 06bf1c1; "
@@ -50,11 +52,13 @@ LEVEL_TEXT = (
     "daemons, CPython's scheduling of same-instant callbacks.")
 THEOREMS = [("Kopf.Props.C09", "Kopf.C09." + n) for n in [
     "at_most_one", "spawn_only_when_none", "started_on_match", "self_exit_is_remembered", "no_restart_after_self_exit",
-    "staged", "staged_monotone", "stop_reasons", "exit_reaches_known", "gone_unmarked_not_stopped", "orphan_never_stopped",
+    "staged", "staged_monotone", "stop_reasons", "exit_reaches_known", "next_round_within_period", "sweep_is_unconditional",
+    "paused_daemon_cancelled_in_time", "gone_unmarked_not_stopped", "orphan_never_stopped",
     "gone_unmarked_witness", "killer_sweep_visits_all", "old_killer_iteration_witness",
     "progress", "idle_only_spins", "idle_only_spins_witness"]]
 TIE_THEOREMS = [("Kopf.Tie.C09", "Kopf.C09.Tie." + n) for n in ["stage_eq", "killer_phases_eq", "timers_force_none",
-                                                                         "timer_loop_guarded", "killer_iterates_snapshots"]]
+                                                                         "timer_loop_guarded", "killer_iterates_snapshots",
+                                                                         "sweep_unconditional", "killer_period_eq"]]
 RULE = ("seeded whole-operator histories: 1-2 objects, 1-3 daemons/timers (modes obey/cancel/ignore/exit; cancellation_backoff/"
         "timeout in {None,0,small,large}; timers with interval/idle/both/neither, sharp, initial_delay), optional label filter and "
         "change handler, timeline of label toggles, spec edits, graceful deletion, deletion before the finalizer lands, forced "
@@ -82,6 +86,7 @@ PRIMARY = ["FILTERS_MISMATCH", "RESOURCE_DELETED", "OPERATOR_PAUSING", "OPERATOR
 R2L = {"DONE": "done", "FILTERS_MISMATCH": "mismatch", "RESOURCE_DELETED": "deleted", "OPERATOR_PAUSING": "pausing",
        "OPERATOR_EXITING": "exiting", "DAEMON_SIGNALLED": "signalled", "DAEMON_CANCELLED": "cancelled",
        "DAEMON_ABANDONED": "abandoned"}
+KILLER_PERIOD = 1.0     # `asyncio.timeout(1.0)` between two rounds of the daemon killer while paused
 DELTA_START = 2.0      # … and to start up (discovery + first listing)
 DELTA = 1.0            # virtual seconds the operator is given to react to an event (measured: a few 1/64 s)
 SPIN_LIMIT = 20000
@@ -439,6 +444,22 @@ def instrumented(sim: Any, R: Recorder) -> Iterator[None]:
                 spin["iter"], spin["n"] = it0, 1
         return out
 
+    from kopf._core.reactor import inventory
+    o_iter = inventory.ResourceMemories.iter_all_daemon_memories
+
+    def iter_all_daemon_memories(self: Any) -> Any:
+        # called once per round of the daemon killer (and once on exit): what the sweep can see
+        if sys._getframe(1).f_code.co_name == "daemon_killer" and not R.muted():
+            listed = []
+            for mem in self._items.values():
+                for d in mem.daemons_memory.running_daemons.values():
+                    rec = R.by_stopper.get(id(d.stopper))
+                    if rec is not None:
+                        listed.append({"sid": rec["sid"], "reasons": _names(d.stopper.reason)})
+            R.log("sweep", lt=_ticks(asyncio.get_running_loop().time()), listed=listed)
+        return o_iter(self)
+
+    inventory.ResourceMemories.iter_all_daemon_memories = iter_all_daemon_memories  # type: ignore[assignment]
     daemons.Daemon = Daemon  # type: ignore[assignment,misc]
     aioenums.FlagSetter.set = fset  # type: ignore[assignment]
     daemons._runner = _runner  # type: ignore[assignment]
@@ -453,6 +474,7 @@ def instrumented(sim: Any, R: Recorder) -> Iterator[None]:
     try:
         yield
     finally:
+        inventory.ResourceMemories.iter_all_daemon_memories = o_iter  # type: ignore[assignment]
         daemons.Daemon = o_Daemon  # type: ignore[misc]
         aioenums.FlagSetter.set = o_set  # type: ignore[assignment]
         daemons._runner = o_runner
@@ -560,7 +582,63 @@ TIMEOUTS = [None, None, 0, 1.0, 8.0]
 TIMER_CFGS = ["interval", "interval", "interval", "sharp", "both", "both", "idle", "neither", "neither"]
 
 
+def gen_pause_scenario(rng: Any, seed: int) -> dict:
+    """The #1266 interleaving: an event is still processed when the operator is already paused (pause toggled at the very
+    instant of an object's creation / of a label edit that makes a daemon match), 2-3 daemons per object that need
+    cancellation, pauses long enough for every stage. Daemons spawned by such a cycle get their flag from
+    `pause_daemons`; only the killer's rounds can take them through cancellation and abandonment."""
+    handlers: list[dict] = []
+    for k in range(rng.choice([2, 2, 3])):
+        opts: dict[str, Any] = {}
+        b, t = rng.choice([None, 0, 0.5, 0.5, 1.5]), rng.choice([None, 0, 0.5, 1.0, 1.0, 2.0])
+        if b is not None:
+            opts["cancellation_backoff"] = b
+        if t is not None:
+            opts["cancellation_timeout"] = t
+        if k > 0 and rng.random() < 0.5:
+            opts["labels"] = {"on": "1"}
+        handlers.append({"kind": "daemon", "id": f"d{k}", "opts": opts,
+                         "daemon": {"mode": rng.choice(["cancel", "cancel", "ignore", "ignore", "obey"]), "after": 2.0}})
+    if rng.random() < 0.3:
+        handlers.append({"kind": "timer", "id": "t9", "opts": {"interval": 1.0}, "tcfg": "interval"})
+    if rng.random() < 0.4:
+        handlers.append({"kind": "create", "id": "c1"})
+    t = 1.0
+    lab = rng.choice(["0", "0", "1"])
+    mk = lambda v: {"spec": {"x": 0}, "metadata": {"labels": {"on": v}}}  # noqa: E731
+    tl: list[list] = []
+    first = rng.choice(["with-create", "later", "later"])
+    if first == "with-create":
+        ops = [[t, "pause"], [t, "create", "a", mk(lab)]]
+        rng.shuffle(ops)
+        tl += ops
+        t += rng.choice([4.0, 6.0, 9.0])
+        tl.append([t, "resume"])
+    else:
+        tl.append([t, "create", "a", mk(lab)])
+    for n in range(rng.choice([1, 1, 2])):
+        t += rng.choice([0.5, 2.0, 3.0])
+        kind = rng.choice(["label", "label", "newobj", "spec"])
+        eps = rng.choice([0, 0, 0, 1.0 / 64])
+        if kind == "label":
+            lab = "1" if lab != "1" else "0"
+            ops = [[t, "edit", "a", {"metadata": {"labels": {"on": lab}}}], [t + eps, "pause"]]
+        elif kind == "newobj":
+            ops = [[t, "create", f"n{n}", mk("1")], [t + eps, "pause"]]
+        else:
+            ops = [[t, "edit", "a", {"spec": {"x": n + 1}}], [t + eps, "pause"]]
+        if eps == 0:
+            rng.shuffle(ops)
+        tl += ops
+        t += eps + rng.choice([4.0, 6.0, 9.0])
+        tl.append([t, "resume"])
+    return {"runner": RUNNER, "seed": seed, "handlers": handlers, "timeline": tl, "end": t + rng.choice([3.0, 6.0]),
+            "settings": {}, "flavour": "pause-sneak"}
+
+
 def gen_scenario(rng: Any, seed: int) -> dict:
+    if rng.random() < 0.2:
+        return gen_pause_scenario(rng, seed)
     handlers: list[dict] = []
     for k in range(rng.choice([1, 1, 2, 2, 3])):
         opts: dict[str, Any] = {}
@@ -698,7 +776,7 @@ def tie_requests(sc: dict, tr: dict) -> tuple[list, list, list, dict]:
     reqs: list = []
     impls: list = []
     where: list = []
-    stats = {"cycles": 0, "skipped_concurrent": 0, "killer": 0, "killer_incomplete": 0, "exits": 0, "log_gaps": []}
+    stats = {"cycles": 0, "skipped_concurrent": 0, "killer": 0, "killer_incomplete": 0, "exits": 0, "rounds": 0, "log_gaps": []}
     by_cyc: dict[int, list[dict]] = {}
     by_cid: dict[int, list[dict]] = {}
     by_kid: dict[int, list[dict]] = {}
@@ -825,6 +903,22 @@ def tie_requests(sc: dict, tr: dict) -> tuple[list, list, list, dict]:
         impls.append(sets)
         where.append({"kind": "killer", "kid": e0["kid"], "t": e0["t"], "sid": e0["sid"]})
         stats["killer"] += 1
+    # ---- rounds of the daemon killer: which listed daemons get a `stop_daemon` --------------------------------
+    sweeps = [x for x in ev if x["e"] == "sweep"]
+    for n, sw in enumerate(sweeps):
+        nxt = next((y["seq"] for y in sweeps[n + 1:] if y["inc"] == sw["inc"]), len(ev))
+        ks = [x for x in ev[sw["seq"]:nxt] if x["e"] == "k0" and x["inc"] == sw["inc"] and x["t"] == sw["t"]]
+        if not sw["listed"]:
+            continue
+        # daemons that end at the very instant of the sweep may be gone before their memory's turn: left out
+        clear = [d for d in sw["listed"] if d["sid"] in inst and (inst[d["sid"]]["t_end"] is None or inst[d["sid"]]["t_end"] > sw["t"])]
+        if not clear or any(x["e"] == "killer-error" for x in ev[sw["seq"]:nxt]):
+            continue
+        started = {x["sid"] for x in ks}
+        reqs.append(["C09.sweep", [{"reasons": _model_reasons(d["reasons"])} for d in clear]])
+        impls.append([d["sid"] in started for d in clear])
+        where.append({"kind": "round", "t": sw["t"], "listed": clear})
+        stats["rounds"] += 1
     # ---- instance ends --------------------------------------------------------------------------------
     for i in inst.values():
         if i["seq_end"] is None or i["muted"] or i["own_exit"] is None:
@@ -1162,6 +1256,45 @@ def oracle(ctx: Ctx, sc: dict, res: dict) -> dict:
                     ctx.count("stages", "abandoned after timeout")
             if "DAEMON_SIGNALLED" in e["reason"]:
                 ctx.count("stages", "signalled")
+    # ---- O8: when the operator pauses or exits the stages are actually gone through, whoever set the flag: a daemon that ----
+    #      keeps running is cancelled within backoff (+ one killer period, 1 s, while paused) of the flag and abandoned
+    #      within backoff + timeout (+ period). While paused nothing but the killer's rounds can do that.
+    tick = 1.0 / 64
+    for i in inst.values():
+        h, iv = hs.get(i["hid"]), incs.get(i["inc"])
+        if h is None or iv is None or h["kind"] != "daemon" or orphaned(i):
+            continue
+        o = h.get("opts", {})
+        backoff = float(o.get("cancellation_backoff") or 0)
+        has_timeout = o.get("cancellation_timeout") is not None
+        timeout = float(o.get("cancellation_timeout") or 0)
+        windows = [(p0, p1, "OPERATOR_PAUSING", KILLER_PERIOD, "the operator was paused") for p0, p1 in iv["pauses"]]
+        if iv["how"] == "stop" and iv.get("stop_done") is not None:
+            windows.append((iv["until"], iv["stop_done"], "OPERATOR_EXITING", 0.0, "the operator exits"))
+        for w0, w1, reason, period, why in windows:
+            tf = next((e["t"] for e in i["sets"] if reason in e["reason"] and w0 <= e["t"] < w1), None)
+            if tf is None:
+                continue
+            who = next(e["site"] for e in i["sets"] if reason in e["reason"] and e["t"] == tf)
+            dl_c = tf + period + backoff + tick
+            dl_a = tf + period + backoff + timeout + tick
+            upto = min(w1, iv["until"] if reason == "OPERATOR_PAUSING" else float("inf"))
+            if has_timeout and dl_c < upto and t_end(i) > dl_c:
+                if not any(cn["t"] <= dl_c for cn in i["cancels"]):
+                    fail(f"{i['hid']} (instance {i['sid']}) got {reason} at t={tf} (set by {who}) and kept running, but was not "
+                         f"cancelled by t={dl_c} (cancellation_backoff={backoff}, killer period {period}s): {why}",
+                         {"site": "daemons.daemon_killer", "shape": "flagged daemon is not cancelled after the backoff", "reason": reason},
+                         sid=i["sid"], flagged_by=who)
+                else:
+                    ctx.count("escalation", f"{reason}: cancelled in time (flag by {who})")
+            if dl_a < upto and t_end(i) > dl_a:
+                if not any("DAEMON_ABANDONED" in e["reason"] and e["t"] <= dl_a for e in i["sets"]):
+                    fail(f"{i['hid']} (instance {i['sid']}) got {reason} at t={tf} (set by {who}) and kept running, but was not "
+                         f"abandoned by t={dl_a} (backoff={backoff}, timeout={timeout}, killer period {period}s): {why}",
+                         {"site": "daemons.daemon_killer", "shape": "flagged daemon is not abandoned after backoff+timeout", "reason": reason},
+                         sid=i["sid"], flagged_by=who)
+                else:
+                    ctx.count("escalation", f"{reason}: abandoned in time (flag by {who})")
     for key, cs in calls_by.items():
         iv = incs.get(key[0])
         for c in cs:
@@ -1339,6 +1472,19 @@ def extract(ctx: Ctx) -> None:
     iters = sorted(pyextract.norm(n.iter) for n in await_loops)
     snapshots = bool(await_loops) and all(i in ("list(memories.iter_all_daemon_memories())", "list(memory.running_daemons.values())")
                                           for i in iters) and "list(memory.running_daemons.values())" in iters
+    # the pausing loop: `stop_daemon` is spawned for every listed daemon, unconditionally; rounds are 1.0 s apart
+    pausing = [n for n in ast.walk(fk) if isinstance(n, ast.While) and pyextract.norm(n.test) == "operator_paused.is_on()"]
+    if len(pausing) != 1:
+        raise ExtractError("daemon_killer: the pausing loop `while operator_paused.is_on()` was not found")
+    inner = [n for n in ast.walk(pausing[0]) if isinstance(n, ast.For) and pyextract.norm(n.target) == "daemon"]
+    unconditional = len(inner) == 1 and len(inner[0].body) == 1 and isinstance(inner[0].body[0], ast.Expr) \
+        and isinstance(inner[0].body[0].value, ast.Await) and pyextract.norm(inner[0].body[0].value.value.func) == "scheduler.spawn" \
+        and "stop_daemon(" in pyextract.norm(inner[0].body[0]) and "OPERATOR_PAUSING" in pyextract.norm(inner[0].body[0])
+    periods = [pyextract.literal(n.items[0].context_expr.args[0]) for n in ast.walk(pausing[0])
+               if isinstance(n, ast.AsyncWith) and pyextract.norm(n.items[0].context_expr.func) == "asyncio.timeout"
+               and len(n.items[0].context_expr.args) == 1]
+    if len(periods) != 1 or not isinstance(periods[0], (int, float)) or float(periods[0]) * 64 != int(float(periods[0]) * 64):
+        raise ExtractError(f"daemon_killer: the period of the pausing rounds is not one dyadic literal: {periods!r}")
     # ---- _timer: is the after-run idle loop guarded by the stopper? -------------------------------------------------
     guarded = timer_loop_guarded(tree)
     out = pyextract.HEADER.format(src="kopf/_core/engines/daemons.py")
@@ -1352,6 +1498,10 @@ def extract(ctx: Ctx) -> None:
             f"def timerIdleLoopGuarded : Bool := {'true' if guarded else 'false'}\n\n")
     out += ("/-- every awaiting loop of `daemon_killer` iterates `list(...)` snapshots; found: " + "; ".join(iters).replace("-/", "") + " -/\n"
             f"def killerIteratesSnapshots : Bool := {'true' if snapshots else 'false'}\n\n")
+    out += ("/-- the pausing loop spawns `stop_daemon(OPERATOR_PAUSING)` for every listed daemon without looking at its stopper -/\n"
+            f"def sweepUnconditional : Bool := {'true' if unconditional else 'false'}\n\n"
+            "/-- `asyncio.timeout(...)` between two rounds of the pausing loop, in ticks -/\n"
+            f"def killerPeriod : Tick := {int(float(periods[0]) * 64)}\n\n")
     out += "end Kopf.C09.Extracted\n"
     leanio.write_generated("Kopf/Extracted/C09.lean", out)
 
@@ -1409,6 +1559,8 @@ def _shape(req: list, impl: Any) -> tuple[Any, bool]:
     if req[0] == "C09.kplan":
         r = req[1]
         return ["killer", r["backoff"] is not None, r["timeout"] is not None, r["reason"], r["done"], [x[1] for x in impl]], True
+    if req[0] == "C09.sweep":
+        return ["round", sorted({tuple(d["reasons"]) for d in req[1]}), sorted(set(impl))], True
     return ["exit", req[1]["reasons"], impl["forever"]], True
 
 
@@ -1451,7 +1603,7 @@ def _run_batch(ctx: Ctx, scenarios: list[dict], names: list[str | None], oracle_
             rq, im, wh, st = tie_requests(sc, tr)
             for g in st["log_gaps"][:3]:
                 ctx.tie_fail("a stopper changed without a logged event (instrumentation gap)", {"scenario": sc, **g})
-            for key in ("cycles", "skipped_concurrent", "killer", "killer_incomplete", "exits"):
+            for key in ("cycles", "skipped_concurrent", "killer", "killer_incomplete", "exits", "rounds"):
                 ctx.count("tie_units", key, st[key])
             for r_, i_, w_ in zip(rq, im, wh):
                 reqs.append(r_)
